@@ -103,4 +103,15 @@ func factsStore() {
 			unrec("process_dispatch_shape", "bool", "process dispatch changed")
 		}
 	}
+	// partition snapshot = index.Save(w, false); restore = index.Load(r, false)
+	sn, f1 := bodyText("storage/partition.go", "partition", "snapshot")
+	ps, f2 := bodyText("storage/partition.go", "partition", "processSnapshot")
+	if f1 == nil || f2 == nil {
+		unrec("snapshot_is_index_save", "bool", "snapshot/processSnapshot not found")
+	} else if strings.Contains(sn, "this.index.Save(&buf, false)") && strings.Contains(sn, "return buf.Bytes(), nil") &&
+		strings.Contains(ps, "this.index.Load(bytes.NewBuffer(data), false)") {
+		known("snapshot_is_index_save", "bool", "true", "partition.snapshot = index.Save(buf, false); processSnapshot = index.Load(data, false)")
+	} else {
+		unrec("snapshot_is_index_save", "bool", "snapshot/processSnapshot changed")
+	}
 }
